@@ -214,10 +214,29 @@ def strat_large(draw, tier):
     return case
 
 
+class _Static2d:
+    """The public static 2-d entry points (pairing2d / projection2d) seen as a pairing object."""
+
+    def __init__(self, pg):
+        self.pg = pg
+
+    def pairing(self, x):
+        return self.pg.pairing2d(*x)
+
+    def projection(self, z, dim=2):
+        return self.pg.projection2d(z)
+
+
 def body_large(case):
     out = []
     name, dim = case["pairing"], case["dim"]
     pg = _pairings()[name]
+    if dim == 2:
+        st2 = _Static2d(pg)
+        if "z" in case:
+            _check_z(name, st2, 2, int(case["z"]), out, "large-static2d")
+        else:
+            _check_x(name, st2, 2, tuple(int(c) for c in case["x"]), out, "large-static2d")
     if "z" in case:
         _check_z(name, pg, dim, int(case["z"]), out, "large")
     else:
